@@ -13,6 +13,10 @@
             the built structures carry, so any further difference is still reported.
    PlmnRow  SetPlmnDigit for a row of (MCC, MNC): octets per TS 24.008, accepted on the whole
             domain MCC 100..999 x MNC 10..999, recovered by marshal + unmarshal.
+   history  (TraceReset, HNew, HGrow, HAdopt, HEnc) ONE live structure is encoded, grown by fresh
+            items, encoded again, replaced by the decoded one ...: the trace spec tracks the abstract
+            value `cur`; every HEnc must be UeMarshalMsg of the current value, with every length
+            computed from the content, and decode to it (the structure has no other state).
    decode   (DecodeMsg, ListUnmarshal, ContentUnmarshal, InstrsUnmarshal, PartsUnmarshal,
             ResultUnmarshal, RContentUnmarshal, ResultsUnmarshal) on arbitrary octets: no panic,
             no hang; when the octets are the encoding of a structure (strict parser accepts and
@@ -20,7 +24,7 @@
             A panic is classified instr-len-lt-2-panic only when it is raised in parseInstruction
             and a reading of the input reaches an instruction whose length field is below 2. *)
 EXTENDS UePolicy, Json
-VARIABLES l
+VARIABLES l, cur, hbad
 TraceLog == ndJsonDeserialize("trace.ndjson")
 
 \* (kept short: TLC wraps printed tuples at 80 columns; no disjunctions around it: in an action a
@@ -50,16 +54,17 @@ IEEnc(m) == IF m.type = 1 THEN UeMarshalIE(m.iei, UeMarshalSubs(m.subs)) ELSE Ue
 SetterOp(type) == IF type = 3 THEN "SubRes.SetPlmnDigit" ELSE "SubList.SetPlmnDigit"
 
 \* everything but the PLMN layout, relative to the structure x
-BuildRest(e, x) ==
+BuildRestOp(o, e, x, mm) ==
   LET p == UeProjMsg(x) IN
-  /\ Chk(P7(e.built) = p, "Build", "length-not-content", 1)
-  /\ IF e.derr THEN Mis("Build", "decode-error", 0)
-     ELSE /\ Chk(P7(e.dec) = p, "Build", "decode-not-equal", 0)
-          /\ Chk(e.dmm = MmOf(IF e.st.type = 1 THEN e.st.subs ELSE e.st.srs), "Build", "decode-mccmnc", 0)
+  /\ Chk(P7(e.built) = p, o, "length-not-content", 1)
+  /\ IF e.derr THEN Mis(o, "decode-error", 0)
+     ELSE /\ Chk(P7(e.dec) = p, o, "decode-not-equal", 0)
+          /\ Chk(e.dmm = mm, o, "decode-mccmnc", 0)
   /\ IF x.type = 2 THEN TRUE
-     ELSE IF e.lerr THEN Mis("Build", "ie-error", 0)
-     ELSE /\ Chk(e.lenc = IEEnc(x), "Build", "ie-octets-differ", 0)
-          /\ Chk(IEOf(e.ldec) = IEProj(x), "Build", "ie-decode-not-equal", 0)
+     ELSE IF e.lerr THEN Mis(o, "ie-error", 0)
+     ELSE /\ Chk(e.lenc = IEEnc(x), o, "ie-octets-differ", 0)
+          /\ Chk(IEOf(e.ldec) = IEProj(x), o, "ie-decode-not-equal", 0)
+BuildRest(e, x) == BuildRestOp("Build", e, x, MmOf(IF e.st.type = 1 THEN e.st.subs ELSE e.st.srs))
 
 \* the structure with the PLMN octets the built structures actually carry: the PLMN layout is judged
 \* per sublist (TS 24.008 / digit-reversed / anything else), everything else relative to these octets
@@ -176,6 +181,49 @@ DecodeCheck(e) ==
   ELSE IF e.err THEN Mis(e.op, "encoding-rejected", Len(e.in))
   ELSE Chk(Observed(e.op, e.proj) = w.p, e.op, "decode-not-equal", Len(e.in))
 
+\* ------------------------------------------------------------------ histories on one live structure
+\* cur = [kind, val]: the abstract value of the live structure (UePolicyHistory: no state besides the value).
+\* HNew sets it, HGrow appends the fresh item, HAdopt keeps it (the decoded structure equals the encoded one),
+\* HEnc must produce Marshal of the CURRENT value, lengths from content, and decode to it.  After a
+\* mismatch the rest of the history is not judged (hbad) - the abstract value is no longer known.
+HistOps == {"TraceReset", "HNew", "HGrow", "HAdopt", "HEnc"}
+HEncCheck(e) ==
+  IF hbad THEN TRUE
+  ELSE IF cur.kind = "none" \/ e.st.type # (IF cur.kind = "list" THEN 1 ELSE 3) THEN Mis("HEnc", "bad-history", 0)
+  ELSE IF e.eerr THEN Mis("HEnc", "encode-error", 0)
+  ELSE LET x == UeMsg(e.st.pti, e.st.type, e.st.iei,
+                      IF cur.kind = "list" THEN UeSubsOfApi(cur.val) ELSE << >>,
+                      IF cur.kind = "list" THEN << >> ELSE UeSrsOfApi(cur.val), e.st.cm) IN
+       /\ Chk(e.enc = UeMarshalMsg(x), "HEnc", "octets-differ", Len(e.enc))
+       /\ BuildRestOp("HEnc", e, x, MmOf(cur.val))
+HEncOK(e) ==      \* silent version of the same judgement, for hbad
+  /\ cur.kind # "none" /\ ~e.eerr /\ ~e.derr
+  /\ LET x == UeMsg(e.st.pti, e.st.type, e.st.iei,
+                    IF cur.kind = "list" THEN UeSubsOfApi(cur.val) ELSE << >>,
+                    IF cur.kind = "list" THEN << >> ELSE UeSrsOfApi(cur.val), e.st.cm) IN
+     e.enc = UeMarshalMsg(x) /\ P7(e.built) = UeProjMsg(x) /\ P7(e.dec) = UeProjMsg(x)
+HistCheck(e) ==
+  CASE e.op = "HNew" -> Chk(e.ok, "HNew", "build-failed", 0)
+    [] e.op = "HGrow" -> IF hbad THEN TRUE
+                         ELSE IF cur.kind = "none" \/ e.level \notin UeGrowLevels(cur.kind) \/ ~UeGrowOK(cur.val, e.level, e.s, e.i)
+                              THEN Mis("HGrow", "bad-history", 0)
+                              ELSE Chk(e.ok, "HGrow", "append-failed", 0)
+    [] e.op = "HAdopt" -> IF hbad THEN TRUE ELSE Chk(e.ok, "HAdopt", "decode-error", 0)
+    [] e.op = "HEnc" -> HEncCheck(e)
+    [] OTHER -> TRUE
+CurNext(e) ==
+  CASE e.op = "TraceReset" -> [kind |-> "none", val |-> << >>]
+    [] e.op = "HNew" -> [kind |-> e.hkind, val |-> e.val]
+    [] e.op = "HGrow" /\ ~hbad /\ cur.kind # "none" /\ e.level \in UeGrowLevels(cur.kind) /\ UeGrowOK(cur.val, e.level, e.s, e.i) /\ e.ok ->
+         [kind |-> cur.kind, val |-> UeGrow(cur.val, e.level, e.s, e.i, e.item)]
+    [] OTHER -> cur
+BadNext(e) ==
+  CASE e.op \in {"TraceReset", "HNew"} -> (e.op = "HNew" /\ ~e.ok)
+    [] e.op = "HGrow" -> hbad \/ ~e.ok \/ e.panic \/ e.hang \/ cur.kind = "none" \/ e.level \notin UeGrowLevels(cur.kind) \/ ~UeGrowOK(cur.val, e.level, e.s, e.i)
+    [] e.op = "HAdopt" -> hbad \/ ~e.ok \/ e.panic \/ e.hang
+    [] e.op = "HEnc" -> hbad \/ e.panic \/ e.hang \/ ~HEncOK(e)
+    [] OTHER -> hbad
+
 ParseInstructionFn == "github.com/free5gc/nas/uePolicyContainer.parseInstruction"
 Totality(e) ==
   /\ Chk(~e.hang, e.op, "hang", 0)
@@ -185,7 +233,7 @@ Totality(e) ==
           THEN Mis("parseInstruction", "instr-len-lt-2-panic", Len(e.in))
           ELSE Mis(e.op, "panic", 0)
 
-TInit == l = 1 /\ TLCSet(2, 0) /\ TLCSet(3, 0)
+TInit == l = 1 /\ cur = [kind |-> "none", val |-> << >>] /\ hbad = FALSE /\ TLCSet(2, 0) /\ TLCSet(3, 0)
 TNext ==
   /\ l <= Len(TraceLog)
   /\ LET e == TraceLog[l] IN
@@ -194,10 +242,12 @@ TNext ==
         ELSE CASE e.op = "Build" -> BuildCheck(e)
                [] e.op = "PlmnRow" -> PlmnCheck(e)
                [] e.op \in DecodeOps -> DecodeCheck(e)
+               [] e.op \in HistOps -> HistCheck(e)
                [] OTHER -> Mis("event", "unknown-event", 0)
+     /\ cur' = CurNext(e) /\ hbad' = BadNext(e)
   /\ TLCSet(2, l)
   /\ l' = l + 1
-TSpec == TInit /\ [][TNext]_l
+TSpec == TInit /\ [][TNext]_<< l, cur, hbad >>
 \* information only (not a verdict): how many malformed inputs were accepted leniently
 Consumed == /\ PrintT(<< "CONSUMED", TLCGet(2) >>)
             /\ (TLCGet(3) = 0 \/ PrintT(<< "MISMATCH", TLCGet(2), "INFO", "lenient-accept", TLCGet(3) >>))
